@@ -10,7 +10,7 @@ from pyvc.sym import SInt, SId, ctx
 from pyvc.folds import Seq, Gen
 from pyvc.nodes import Family, AbsNode, band, bor, bnot, implies, fsum, fall, fany, ite
 from pyvc.engine import Harness
-from .common import (new_base, new_family, child_invariants, env_total_in_bounds, AbsEnv, Bo, cur_env,
+from .common import (ints, new_base, new_family, child_invariants, env_total_in_bounds, AbsEnv, Bo, cur_env,
                      concretise_children, build_children, _mv)
 from .specs import truth
 from .c05 import negate_contract
@@ -84,7 +84,7 @@ class _Conn(Harness):
         exp = self.connective(tvs, w)
         ok = got.constant is not None and int(got.constant) == exp
         return {"violated": [] if ok else [self.goal],
-                "detail": {"model": node.to_text(), "interpretation": env, "evaluate": [int(x) for x in got.as_tuple()],
+                "detail": {"model": node.to_text(), "interpretation": env, "evaluate": ints(got),
                            "documented_connective_value": exp, "children_truth_values": tvs}}
 
 
@@ -267,7 +267,7 @@ class IterArgH(_Conn):
         exp = self.connective(tvs, w)
         ok = got.constant is not None and int(got.constant) == exp
         return {"violated": [] if ok else [self.goal],
-                "detail": {"model": node.to_text(), "interpretation": env, "evaluate": [int(x) for x in got.as_tuple()],
+                "detail": {"model": node.to_text(), "interpretation": env, "evaluate": ints(got),
                            "documented_connective_value": exp, "children_truth_values": tvs + [w["tvz"]]}}
 
 
